@@ -278,6 +278,9 @@ func (r *Router) deployTargetsIntoService(service *Service, targetSlot TargetSlo
 
 	err = r.installService(service)
 	if err != nil {
+		// The new targets were never put into service, so stop health
+		// checking them.
+		lb.Dispose()
 		return err
 	}
 
